@@ -38,6 +38,7 @@ def sample_of(rec, full):
 
 
 def run_tlc(wd, name, trace, universe, workers=None, timeout=2400):
+    workers = workers or min(8, vlib.NCPU)   # string slicing contends on TLC's intern table: 8 is as fast as 16
     r = vlib.tlc("MC_TraceDiag", cfg="MC_TraceDiag.cfg", wd=wd, env={"TRACE": trace, "UNIVERSE": universe},
                  tags=("REJECT",), workers=workers, timeout=timeout, out_file=os.path.join(wd, "tlc-" + name + ".out"))
     vlib.require_tlc_ok(r, "Trace_Diag/" + name)
